@@ -763,9 +763,16 @@ func runC10(c *Ctx) {
 	// stores in the success region: behind the success branch in the function that called Verify; a store of the loop
 	// body, when Verify is called in the per-signature worker: reachable only from exits of the worker that lie behind
 	// Verify's nil error
+	// "Behind the success branch" is a must-pass fact: EVERY path from the function's entry to the store takes the edge on
+	// which Verify's error is nil (GuardsOf). That the store sits in the block the passing edge leads to is not enough: when
+	// the failure test is weakened by a conjunct (`if strict && err != nil {`) that block has a second way in — the edge on
+	// which the conjunct is false — and a failed verification sets the flag, stores its outcome and stops the listing as if
+	// it had verified: the artifact is accepted on a signature that did not verify. Spelling does not matter: the label is
+	// the canonical form of the comparison on the edge (operands swapped, negated, switch case, bool local, success region
+	// inside `if err == nil {` or behind `if err != nil {… continue}`).
 	afterVerify := func(st *ssa.Store) bool {
 		if st.Parent() == VF {
-			return labelHas(vfi.GuardsOf(st), okLbl) || (succBlock != nil && st.Block() == succBlock)
+			return labelHas(vfi.GuardsOf(st), okLbl)
 		}
 		return x.onlyAfterWorkerSuccess(st, verify, 1)
 	}
@@ -925,13 +932,19 @@ func runC10(c *Ctx) {
 	// From the event (the fetch returned an error / Verify returned a nil outcome) on, in this invocation of the callback:
 	// the rest of the function that made the call without the edges that contradict the event and, for a call made in the
 	// per-signature worker, the loop body after the worker returned through any exit it can still take.
+	// A nil outcome is judged once for each answer of Verify's error (nil / not nil): the error is one value per
+	// iteration, so the two cases together are all executions, and within a case the tests of that value all go the same
+	// way — `if err != nil && outcome == nil {return err}; if err != nil {…continue}` (the nested test flattened) does not
+	// continue with a nil outcome although, edge by edge, the second `err != nil` can be reached over the first one's
+	// `err == nil`.
 	for _, fc := range []struct {
-		key  string
-		ev   c10assume
-		what string
+		key   string
+		ev    c10assume
+		what  string
+		split []c10assume
 	}{
-		{"fail/fetch-error", c10assume{fetch, 2, false}, "a signature that cannot be fetched"},
-		{"fail/nil-outcome", c10assume{verify, 0, true}, "a failed verification without outcome"},
+		{"fail/fetch-error", c10assume{fetch, 2, false}, "a signature that cannot be fetched", nil},
+		{"fail/nil-outcome", c10assume{verify, 0, true}, "a failed verification without outcome", []c10assume{{verify, 1, true}, {verify, 1, false}}},
 	} {
 		if len(c10AssumeCut(fc.ev.call.Parent(), []c10assume{fc.ev})) == 0 && !(x.H != nil && fc.ev.call.Parent() == x.H) {
 			c.Bad(fc.key, fc.what+" ends the callback with an error", w.FnPos(CB), "no branch on "+desc(fc.ev.call)+fmt.Sprintf("#%d", fc.ev.idx))
@@ -939,7 +952,14 @@ func runC10(c *Ctx) {
 		}
 		cont := false
 		var wit []string
-		for _, ct := range x.forward(fc.ev.call, fc.ev) {
+		var conts []c10cont
+		if len(fc.split) == 0 {
+			conts = x.forward(fc.ev.call, fc.ev)
+		}
+		for _, alt := range fc.split {
+			conts = append(conts, x.forward(fc.ev.call, fc.ev, alt)...)
+		}
+		for _, ct := range conts {
 			if ct.fi.Fn != CB {
 				continue
 			}
